@@ -119,6 +119,21 @@ CLAIMED = {
         note=COMMON_NOTE + 'Partial by nature: reaping, thread clean-up and what the future resolves to for each way of dying are concurrent.futures/'
              'multiprocessing behaviour (modelled in futureOf, observed by the sweep). Defect F-H1 (event loop blocked in executor shutdown) found and fixed here.',
         technique='Lean 4 decision-table proof + real-process outcome/signal sweep compared with the model'),
+    'C12': dict(
+        text=('Theorems over model A: every operation extends the hook log by a word of the protocol automaton initialise-run · start-run · in-process events · end-run (state still running, run arguments present) · finished (state finished, arguments withdrawn), each once, for every operation except close() of a run that was initialised but never started (which calls no hook and leaves the arguments in place — the full statement is proved false on start();close() and the exact statement with the automaton state read from the model is proved instead); the whole hook log of every history is accepted; a refused request calls no hook; the run arguments are present in initialized and running and absent in created/finished. Tied to /repo by exact correspondence of the hook log seen by a plugin registered through Nextline.register (sampling Nextline.state and context.run_arg inside each hook) on all short serial histories and random long ones incl. events still in the channel at child exit and callers reacting to the state attribute, plus an oracle (regular expression per run).'),
+        design='§6 C12',
+        note=COMMON_NOTE + 'Theorems are about serial histories (no lifecycle call issued while another is in progress), which is where the property can hold: overlapping calls interfere through transitions\' cancellation of in-flight triggers — known finding F-A2 (open), matched by violation kind. transitions/apluggy/asyncio are modelled, not verified.',
+        technique='Lean 4 proofs over a deterministic API-level model + generated FSM table (translator) + differential correspondence with a simulated child under a permuting event loop'),
+    'C14': dict(
+        text=("Theorems over model A: an accepted (re)initialisation publishes exactly one run number — the next one or the one the caller restarts from — and the counter moves just past it; no other operation publishes or changes it; the run arguments always equal the composer\\'s current statement and options and carry the number published last, and the child is started with exactly them; a reset takes full effect (all given options, one re-initialisation) or none (refused ⇒ state unchanged). Tied to /repo by exact correspondence on serial histories with reset carrying every subset of the four options (run_no/run_info/statement publications and the RunArg handed to the simulated child) and an oracle."),
+        design='§6 C14',
+        note=COMMON_NOTE + 'Theorems are about serial histories (no lifecycle call issued while another is in progress), which is where the property can hold: overlapping calls interfere through transitions\' cancellation of in-flight triggers — known finding F-A2 (open), matched by violation kind. transitions/apluggy/asyncio are modelled, not verified.',
+        technique='Lean 4 proofs over a deterministic API-level model + generated FSM table (translator) + differential correspondence with a simulated child under a permuting event loop'),
+    'C16': dict(
+        text=("Theorems over model A: Continue plugins are registered only while running, at most one, and the flag is true iff one is registered; a refused non-interactive request leaves no plugin behind and the flag false unless a non-interactive run is in flight; after an accepted plain run() no command reaches the child on any prompt for the rest of that run, whatever happened before (refused or accepted requests in any order). Tied to /repo by exact correspondence (continuous_enabled after every operation, the flag\\'s publications, commands reaching the simulated child\\'s queue when it emits prompts) on all short serial histories and random long ones, and an oracle."),
+        design='§6 C16',
+        note=COMMON_NOTE + 'Theorems are about serial histories (no lifecycle call issued while another is in progress), which is where the property can hold: overlapping calls interfere through transitions\' cancellation of in-flight triggers — known finding F-A2 (open), matched by violation kind. transitions/apluggy/asyncio are modelled, not verified.',
+        technique='Lean 4 proofs over a deterministic API-level model + generated FSM table (translator) + differential correspondence with a simulated child under a permuting event loop'),
 }
 
 REASON_TODO = 'check not built yet in this revision of /verif (planned, see DESIGN.md §6); not claimed until its theorems and correspondence exist'
